@@ -159,6 +159,30 @@ class Evaluator:
             return ("bool", s0.startswith(pat_text(args[1])))
         if short == "ends_with" and len(args) == 2:
             return ("bool", s0.endswith(pat_text(args[1])))
+        if short in ("trim_start", "trim_end") and len(args) == 1:
+            return ("str", s0.lstrip() if short == "trim_start" else s0.rstrip())
+        if short in ("trim_start_matches", "trim_end_matches", "trim_matches") and len(args) == 2:
+            t = pat_text(args[1])
+            r_ = s0
+            if t:
+                while short != "trim_end_matches" and r_.startswith(t):
+                    r_ = r_[len(t):]
+                while short != "trim_start_matches" and r_.endswith(t):
+                    r_ = r_[:len(r_) - len(t)]
+            return ("str", r_)
+        if short == "is_empty" and len(args) == 1:
+            return ("bool", s0 == "")
+        if short == "contains" and len(args) == 2:
+            return ("bool", pat_text(args[1]) in s0)
+        if short in ("find", "rfind") and len(args) == 2 and s0.isascii():
+            i_ = s0.find(pat_text(args[1])) if short == "find" else s0.rfind(pat_text(args[1]))
+            return ("some", ("int", i_)) if i_ >= 0 else ("none",)
+        if short == "rsplit_once" and len(args) == 2:
+            t = pat_text(args[1])
+            if t in s0:
+                a_, b_ = s0.rsplit(t, 1)
+                return ("some", ("tuple", ("str", a_), ("str", b_)))
+            return ("none",)
         if short == "split_whitespace" and len(args) == 1:
             return ("array",) + tuple(("str", w) for w in s0.split())
         if short == "split" and len(args) == 2:
